@@ -39,6 +39,27 @@ CHECKS = {
         ref="DESIGN.md §3 C16"),
 }
 
+CHECKS.update({
+    "C02": dict(
+        category="other",
+        text="The compiler can only emit what its 20 syntax-directed templates emit. Each arm of compile_into is executed symbolically (HIR, keep ∈ {true,false}, every frame alternative) and the instruction template — recursive compiles as placeholders that net [keep] by induction, list children as symbolic counts — is interpreted over the abstract VM S1: stack-depth dataflow over the template's own control flow (net [keep], never below entry, equal depth at label joins, exactly 1 at Return, method buffers start at 0), operand counts vs values pushed, constant kinds, label provenance from a strictly increasing group counter, buffer linearity, frame sizes. Intended sound for the whole statement relative to S1 and the std models; side conditions on parser output (non-empty blocks, Function only under Top/object, root is Top) are discharged on the grammar.",
+        note=TB + "; induction hypothesis 'a child compiled with keep nets [keep]'; symbolic executor + std models",
+        technique="static analysis: symbolic execution of the compiler's HIR into effect templates + abstract interpretation of the templates over an abstract stack machine",
+        ref="DESIGN.md §3 C02"),
+    "C12": dict(
+        category="other",
+        text="Scoping decided on the compiler's templates and the Environment component: only the Block arm opens/closes a scope (paired, on the environment the frame kind selects); the decision structure of let / read / assign, extracted as path conditions by symbolic execution, is evaluated over all 16 worlds (frame kind × visibility × outermost) and compared with the S10 table; each Environment method, executed down to HashMap/Vec primitives, equals its role model (bind-fresh, innermost-first lookup, fresh scope ids, insert-only slots, outermost ⇔ stack length 1); function/method bodies get a fresh environment with [this?]++parameters in a Local frame; VM calls build fresh null-initialised frames. Structural, each rule necessary.",
+        note=TB + "; S10 table from the README; HashMap/Vec behave as documented",
+        technique="static analysis: symbolic execution + finite decision-table evaluation + component model matching + who-may-write census",
+        ref="DESIGN.md §3 C12"),
+    "C13": dict(
+        category="other",
+        text="Evaluation order decided on the templates: along every control-flow path of every arm's template the recursive compiles occur in S2's order exactly once (list children iterated forwards), the conditional's branches hang off the truthy/falsy edges of Branch, the loop's path language is cond (body cond)*, the compound-array arm builds exactly the documented rewrite (size once and first, counter from 0 step 1 while < size, initializer once per iteration before the store) and only side-effect-free initializer kinds are evaluated once; VM-side orientation (pop_sequence, frames, print, object slots) from the handler templates. Sound for the ordering statement relative to S1.",
+        note=TB + "; straight-line VM execution trusted",
+        technique="static analysis: symbolic execution into templates, CFG path-language check, structural matching of the synthetic rewrite AST",
+        ref="DESIGN.md §3 C13"),
+})
+
 PENDING_REASON = "check under construction in this round (static rules designed in DESIGN.md §3, not yet implemented)"
 
 
